@@ -21,6 +21,12 @@
 //!                                         the real inject_meta_context under the schedule; output:
 //!                                         (document neutral-document): the second rendering is of the
 //!                                         same case with every data string replaced by letters
+//!        (9 mode keytype rows)            a keyed list (one <li> per row, the row string is key and text)
+//!                                         rendered with branch markers (islands router): mode 0
+//!                                         to_html_branching, 1 / 2 in-order / out-of-order branching
+//!                                         streams; the keys are written into <!--bo-item-KEY-->
+//!        (5 ..) modes 2 / 3               in-order / out-of-order stream with branch markers
+//!        (10 form position s)             the view! literal attribute form `form` in the position `position`
 //!        (8 child position s)             the view! child form `child` in the position `position`
 //!                                         (macro-inlined literals: static_grid)
 //! view : (6 kind variant (strings..) rep) a leptos_meta component (renders nothing in place):
@@ -370,6 +376,99 @@ fn static_view(k: i64) -> String {
     }
 }
 
+// ------------------------------------------------------------------ view! child forms x positions
+/// the positions a child can have in a `view!`: root of the invocation (builder path), nested in
+/// an otherwise static subtree (macro-inlined at compile time), next to a dynamic attribute /
+/// sibling (not inlined), inside text-only elements
+macro_rules! grid_positions {
+    ($p:expr, $s:ident; $($c:tt)*) => {
+        match $p {
+            0 => view! { <div>$($c)*</div> }.to_html(),
+            1 => view! { <div><span>$($c)*</span></div> }.to_html(),
+            2 => view! { <section><div><p>$($c)*</p></div><br/></section> }.to_html(),
+            3 => view! { <div><span class="c" title="t">$($c)*</span></div> }.to_html(),
+            4 => { let d = $s.clone(); view! { <div><span title=d>$($c)*</span></div> }.to_html() }
+            5 => { let d = $s.clone(); view! { <div><span>$($c)*{d}</span></div> }.to_html() }
+            6 => view! { <div><textarea>$($c)*</textarea></div> }.to_html(),
+            7 => view! { <textarea>$($c)*</textarea> }.to_html(),
+            8 => view! { <div><script>$($c)*</script></div> }.to_html(),
+            9 => view! { <div><style>$($c)*</style></div> }.to_html(),
+            10 => view! { <div><b>"x"</b>$($c)*<i>"y"</i></div> }.to_html(),
+            _ => view! { <ul><li>$($c)*</li><li>"two"</li></ul> }.to_html(),
+        }
+    };
+}
+pub const N_GRID_POSITIONS: i64 = 12;
+pub const N_GRID_CHILDREN: i64 = 23;
+const GRID_L0: &str = "<b>x</b>&amp;\"'";
+
+/// every syntactic form of a text-like child with hostile literal text (gen/c06.py: GRID_CHILDREN)
+fn static_grid(child: i64, p: i64, s: String) -> String {
+    match child {
+        0 => grid_positions!(p, s; "<b>x</b>&amp;\"'"),
+        1 => grid_positions!(p, s; {"<b>x</b>&amp;\"'"}),
+        2 => grid_positions!(p, s; {{"<b>x</b>&amp;\"'"}}),
+        3 => grid_positions!(p, s; {("<b>x</b>&amp;\"'")}),
+        4 => grid_positions!(p, s; {String::from("<b>x</b>&amp;\"'")}),
+        5 => grid_positions!(p, s; {GRID_L0}),
+        6 => grid_positions!(p, s; "</textarea></style><img src=x onerror=alert(1)>"),
+        7 => grid_positions!(p, s; {"</textarea></style><img src=x onerror=alert(1)>"}),
+        8 => grid_positions!(p, s; {{"</textarea></style><img src=x onerror=alert(1)>"}}),
+        9 => grid_positions!(p, s; {"</textarea></style><img src=x onerror=alert(1)>".to_string()}),
+        10 => grid_positions!(p, s; "</span></div><script>alert(1)</script>"),
+        11 => grid_positions!(p, s; {"</span></div><script>alert(1)</script>"}),
+        12 => grid_positions!(p, s; {'<'}),
+        13 => grid_positions!(p, s; {'&'}),
+        14 => grid_positions!(p, s; {1}),
+        15 => grid_positions!(p, s; {"<!-- --> ]]> &lt;"}),
+        16 => grid_positions!(p, s; "<!-- --> ]]> &lt;"),
+        17 => grid_positions!(p, s; {concat!("<i>", "&lt;")}),
+        18 => grid_positions!(p, s; "a<" {"<b>"}),
+        19 => grid_positions!(p, s; {"<b>"} {"</b>"}),
+        20 => grid_positions!(p, s; {move || "<b>x</b>&amp;\"'"}),
+        21 => grid_positions!(p, s; {Some("<b>x</b>&amp;\"'")}),
+        _ => grid_positions!(p, s; "<b>x</b>&amp;\"'" {"</textarea></style><img src=x onerror=alert(1)>"} "<!-- --> ]]> &lt;"),
+    }
+}
+
+/// the same for attributes: every syntactic form of a literal attribute value x positions
+macro_rules! attr_positions {
+    ($p:expr, $s:ident; $($a:tt)*) => {
+        match $p {
+            0 => view! { <div $($a)*>"x"</div> }.to_html(),
+            1 => view! { <div><span $($a)*>"x"</span></div> }.to_html(),
+            2 => view! { <section><div><p $($a)*>"x"</p></div><br/></section> }.to_html(),
+            3 => { let d = $s.clone(); view! { <div><span $($a)*>{d}</span></div> }.to_html() }
+            4 => view! { <div><input $($a)*/></div> }.to_html(),
+            5 => view! { <div><textarea $($a)*>"x"</textarea></div> }.to_html(),
+            _ => { let d = $s.clone(); view! { <div><span $($a)* lang=d>"x"</span></div> }.to_html() }
+        }
+    };
+}
+pub const N_ATTR_GRID_POSITIONS: i64 = 7;
+pub const N_ATTR_GRID_FORMS: i64 = 15;
+const GRID_A0: &str = "a\"b<c>&amp;'";
+
+fn attr_grid(form: i64, p: i64, s: String) -> String {
+    match form {
+        0 => attr_positions!(p, s; title="a\"b<c>&amp;'"),
+        1 => attr_positions!(p, s; title={"a\"b<c>&amp;'"}),
+        2 => attr_positions!(p, s; title=("a\"b<c>&amp;'")),
+        3 => attr_positions!(p, s; title=GRID_A0),
+        4 => attr_positions!(p, s; title={String::from("a\"b<c>&amp;'")}),
+        5 => attr_positions!(p, s; title=concat!("a\"b<c>", "&amp;'")),
+        6 => attr_positions!(p, s; class="\"><img src=x onerror=alert(1)>"),
+        7 => attr_positions!(p, s; class={"\"><img src=x onerror=alert(1)>"}),
+        8 => attr_positions!(p, s; style="\"><img src=x onerror=alert(1)>"),
+        9 => attr_positions!(p, s; style={"\"><img src=x onerror=alert(1)>"}),
+        10 => attr_positions!(p, s; id="\"><img src=x onerror=alert(1)>"),
+        11 => attr_positions!(p, s; id={"\"><img src=x onerror=alert(1)>"}),
+        12 => attr_positions!(p, s; data-x="a\"b<c>&amp;'"),
+        13 => attr_positions!(p, s; data-x={"a\"b<c>&amp;'"}),
+        _ => attr_positions!(p, s; title="a\"b<c>&amp;'" class="\"><img src=x onerror=alert(1)>" id={"\"><img src=x onerror=alert(1)>"}),
+    }
+}
+
 // ------------------------------------------------------------------ view! with dynamic slots
 fn template_view(k: i64, s: String) -> String {
     match k {
@@ -543,12 +642,58 @@ fn drive_stream(sched: &Sexp, make: impl FnOnce() -> BoxedStream) -> String {
 fn streamed(c: &Sexp) -> String {
     drive_stream(c.at(3), || {
         let v = view(c.at(2));
-        if c.at(1).num() == 0 {
-            Box::pin(v.to_html_stream_in_order())
-        } else {
-            Box::pin(v.to_html_stream_out_of_order())
+        match c.at(1).num() {
+            0 => Box::pin(v.to_html_stream_in_order()),
+            1 => Box::pin(v.to_html_stream_out_of_order()),
+            2 => Box::pin(v.to_html_stream_in_order_branching()),
+            _ => Box::pin(v.to_html_stream_out_of_order_branching()),
         }
     })
+}
+
+/// (9 mode keytype rows): tachys' keyed list with the keys in the branch comments
+fn keyed_list(c: &Sexp) -> String {
+    use tachys::view::keyed::keyed;
+    let rows: Vec<String> = c.at(3).list().iter().map(text).collect();
+    let mode = c.at(1).num();
+    macro_rules! render {
+        ($v:expr) => {{
+            let v = $v;
+            match mode {
+                0 => v.to_html_branching(),
+                1 => futures::executor::block_on(v.to_html_stream_in_order_branching().collect::<String>()),
+                _ => futures::executor::block_on(v.to_html_stream_out_of_order_branching().collect::<String>()),
+            }
+        }};
+    }
+    match c.at(2).num() {
+        // a string key
+        0 => render!((
+            ul().child(keyed(rows, |r: &String| r.clone(), |_, r: String| (|_: usize| (), li().child(r)))),
+            p().child("after")
+        )),
+        // a structured key
+        1 => render!((
+            ul().child(keyed(
+                rows.into_iter().enumerate().collect::<Vec<_>>(),
+                |r: &(usize, String)| (r.1.clone(), r.0),
+                |_, r: (usize, String)| (|_: usize| (), li().child(r.1))
+            )),
+            p().child("after")
+        )),
+        // leptos' <For/>
+        _ => {
+            let owner = Owner::new();
+            owner.with(|| {
+                render!(view! {
+                    <ul>
+                        <For each=move || rows.clone() key=|r: &String| r.clone() children=|r: String| view! { <li>{r}</li> }/>
+                    </ul>
+                    <p>"after"</p>
+                })
+            })
+        }
+    }
 }
 
 // ------------------------------------------------------------------ streamed document with leptos_meta
@@ -723,6 +868,9 @@ pub fn run(c: &Sexp) -> Sexp {
         3 => document(c),
         4 => template_view(c.at(1).num(), text(c.at(2))),
         5 => streamed(c),
+        8 => static_grid(c.at(1).num(), c.at(2).num(), text(c.at(3))),
+        9 => keyed_list(c),
+        10 => attr_grid(c.at(1).num(), c.at(2).num(), text(c.at(3))),
         _ => String::new(),
     };
     Sexp::from_str(&out)
